@@ -27,7 +27,7 @@ ASSUMPTIONS = [
 ]
 BOUNDS = {
     "quick": "step: contents sets = all <=2-subsets of the 7-key pool x {1-byte, 33-byte} values + 9 special 3/4-key sets; ops = {set,[]=,delete,del} x 7 keys x 4 values; non-pruning direct from every set, pruning direct / pruning one-op batch from a third of the sets each. lookups: 3-key-subsets family (<=3 keys, short/long/mixed), symbolic q with len <= 3",
-    "thorough": "step: ~630 contents sets over the 10-key pool (all <=2-subsets x 3 value classes, all 3-subsets of 7 keys x 4 patterns), 12-value pool, two of four configurations each; lookups: every 3rd of the 379 <=4-key tries, symbolic q with len <= 4; 3-op batches from a third of the batch pre-states",
+    "thorough": "step: ~630 contents sets over the 10-key pool (all <=2-subsets x 3 value classes, all 3-subsets of 7 keys x 4 patterns), 12-value pool, one of four configurations each (rotating); lookups: every 3rd of the 379 <=4-key tries, symbolic q with len <= 4; 3-op batches from a third of the batch pre-states",
 }
 OUTSIDE = "keys outside the pools as stored keys; lookup keys longer than 4 bytes; more than 4 live keys; batches of more than one operation (C05)"
 NONTRIVIAL_RULE = "step: the operation changed the contents; lookup: the query is a non-empty absent key"
@@ -41,7 +41,7 @@ def jobs(tier):
         select = lambda mi, ci: ci == 0 or (mi % 3 == ci)       # noqa: E731  every set non-pruning; a third each pruning direct / batch
     else:
         configs = [(False, "direct"), (True, "direct"), (False, "batch"), (True, "batch")]
-        select = lambda mi, ci: ci % 2 == mi % 2       # noqa: E731  two of the four configurations per contents set, alternating
+        select = lambda mi, ci: ci == mi % 4           # noqa: E731  one of the four configurations per contents set, rotating
     out = hexstep.step_jobs(tier, ["map", "reach"], kp, vp, seed, configs, select)
     qbase = {"tier": tier, "kpool": kp, "seed": seed, "maxlen": 3 if tier == "quick" else 4, "lift": True}
     nq = len(hexquery.family_for(qbase))
